@@ -37,9 +37,10 @@ def taskFn : String → Option Nat
   | "recvn" => some fMainRecvN | "recvt" => some fMainRecvT | "idle" => some fMainIdle | _ => none
 
 def parseSys (t n p c : String) (st : String := "RUNNING") : Option (Sys × Bool) :=
-  match taskFn t, n.toNat?, p, c.toNat?, QmiModel.Gen.SyncProgs.stateNames.idxOf? st with
-  | some f, some ns, "0", some cap, some ts => if ns ≤ 3 && cap ≤ 3 then some (mk f ns false cap ts, t == "loop") else none
-  | some f, some ns, "1", some cap, some ts => if ns ≤ 3 && cap ≤ 3 then some (mk f ns true cap ts, t == "loop") else none
+  -- p: 0 = neither, 1 = publisher, 2 = bystander waiter on the same condition, 3 = both
+  match taskFn t, n.toNat?, p.toNat?, c.toNat?, QmiModel.Gen.SyncProgs.stateNames.idxOf? st with
+  | some f, some ns, some pb, some cap, some ts =>
+    if ns ≤ 3 && cap ≤ 3 && pb ≤ 3 then some (mk f ns (pb % 2 == 1) cap ts (pb ≥ 2), t == "loop") else none
   | _, _, _, _, _ => none
 
 def dedup (l : List St) : List St :=
